@@ -20,6 +20,16 @@ def rule_module(pid):
     return importlib.import_module('sa.rules.%s' % pid.lower())
 
 
+def run_rules(pid, mod, prog, rep, tier):
+    """the property's own rules, then the cross-cutting D8 rule over the abstract runs they performed"""
+    from .interp import ALL_INTERPS
+    from . import d8rules
+    del ALL_INTERPS[:]
+    mod.run(prog, rep, tier)
+    d8rules.report(prog, rep, pid, list(ALL_INTERPS))
+    del ALL_INTERPS[:]
+
+
 def main(argv=None):
     ap = argparse.ArgumentParser()
     ap.add_argument('prop')
@@ -43,7 +53,7 @@ def main(argv=None):
     try:
         prog = Program.from_repo(a.src)
         rep.analysed['modules_parsed'] = sorted(prog.modules)
-        mod.run(prog, rep, tier)
+        run_rules(pid, mod, prog, rep, tier)
         if tier == 'thorough':
             from .selftest import selftest
             selftest(pid, rep, a.src)
